@@ -98,6 +98,10 @@ type Server struct {
 	Extra        map[string]func(c *Ctx) Reply // additional commands installed by harnesses
 	NodeID       string
 	FailCmd      map[string]string // upper-case command (or "CLIENT TRACKING" style two-word) -> error text to reply
+	// ActiveExpire (opt-in, needs After): keys with a TTL are removed on their own at their expiry time, like Redis'
+	// active expiry cycle (idealised: exactly on time), so tracking clients get the invalidation although nobody
+	// touches the key. Default off: keys expire lazily on the next command.
+	ActiveExpire bool
 }
 
 func New() *Server {
@@ -183,6 +187,11 @@ func (s *Server) KeyVersion(k string) int64 { return s.vers[vkey(0, k)] }
 func (c *Ctx) set(k string, e *entry) {
 	c.S.db(c.Sess.DB)[k] = e
 	c.modified(k)
+	if c.S.ActiveExpire && c.S.After != nil && e.expireAt != 0 {
+		if d := e.expireAt - c.S.NowMs(); d > 0 {
+			c.S.After(d, c.S.expireDue) // a stale timer (TTL changed meanwhile) is a harmless no-op
+		}
+	}
 }
 
 func (c *Ctx) del(k string) bool {
